@@ -8,8 +8,8 @@ line `# kind: <kind>` tells checks/c17.py what is expected of it:
   indep-warm          T independent init/load/modify/export/destroy histories, statics warm  -> no race
   indep-cold          same, nothing warmed                                                   -> first-use statics (finding)
   load-bind           load with RESTRICT_TO_CPUBINDING|IS_THISSYSTEM while bound to one CPU  -> caches valid after load (regression of fix 970d793)
-  synth-warned        HWLOC_SYNTHETIC_VERBOSE + shared memory-side cache: `warned = 1` written by every synthetic export (finding)
-  nomemattr           NO_MEMATTRS + user attribute: refresh cannot validate it               -> finding
+  synth-warned        HWLOC_SYNTHETIC_VERBOSE + shared memory-side cache: `warned` is a first-use static (finding when cold; regression of fix 128454f when warm)
+  nomemattr           NO_MEMATTRS + user attribute: refresh validates it (regression of fix 12fb556)
 """
 import os
 
